@@ -365,8 +365,10 @@ def rule_substitution_early_return(model: Model, rule_id: str = 'C17-R5') -> Rul
                     text, pos = nz.literal(a.ast, a)
                     lits.append(('' if pos == (lb == 'T') else 'not ') + text)
             r.sample({'returns ty unchanged when': lits})
-            if lits == ['not TRUTHY(typing.get_args($ty))']:
-                r.ok()
+            unchanged = len(lits) >= 1 and all(re.search(r'pane\.util\.replace_typevars\(', x) and ' is ' in x and not x.startswith('not ')
+                                                 for x in lits[-1:])
+            if lits == ['not TRUTHY(typing.get_args($ty))'] or unchanged:
+                r.ok()          # no arguments at all, or every substituted argument is identical to the original one
             else:
                 r.fail(f.qualname, f"return ty when {lits}", f.loc(n.ast),
                        "a type with arguments can be returned unsubstituted: type variables nested inside it (e.g. in a struct literal "
@@ -375,10 +377,9 @@ def rule_substitution_early_return(model: Model, rule_id: str = 'C17-R5') -> Rul
 
 
 HANDLERLESS_OK = {
-    'UnionConverter': 'fallback for a value that matches no member',
     'EnumConverter': 'fallback for a value that is not a member',
+    'ValueOrListConverter': 'only for a value that is not a ValueOrList at all; the union writers are judged by C18-R8',
     'DelegateConverter': 'fallback when the inner converter cannot serialise the subclass instance',
-    'ValueOrListConverter': 'element type given explicitly',
     'Converter': 'default implementation: dispatch on the runtime type',
 }
 
